@@ -17,8 +17,8 @@ import (
 
 // SV_C13_split: one BeginBlock reward distribution.
 //
-// sv:bounds 2 (quick) / 3 (thorough) validators in the last commit with arbitrary voting powers (1 <= p < 2^40), each having signed or not (symbolic), any one of them the proposer; delegation pool balance arbitrary (0 included) with 2 delegators whose active amounts are arbitrary and sum to at most the pool; rewards pool arbitrary; block height 7 (first cycle, schedule running, genesis options)
-// sv:outside more than 3 validators / 2 delegators; the matured-chunk bookkeeping of validator rewards (interval boundaries); heights other than 7
+// sv:bounds 2 validators in the last commit with arbitrary voting powers (1 <= p < 2^40), thorough: a third one with power 1, 1000 or 2^39, each having signed or not (symbolic), any one of them the proposer; delegation pool balance arbitrary (0 included) with 2 delegators whose active amounts are arbitrary and sum to at most the pool; rewards pool arbitrary; block height 7 (first cycle, schedule running, genesis options)
+// sv:outside more than 3 validators / 2 delegators; three symbolic powers at once (solver unknown: reduced bound); the matured-chunk bookkeeping of validator rewards (interval boundaries); heights other than 7
 // sv:goal the rewards credited to validators (incl. commission and proposer share) and to delegators together do not exceed the amount pulled for the block, and the amount recorded as distributed equals what ConsumeRewards was given (at most the pulled amount)
 func SV_C13_split() {
 	app := svNewApp()
@@ -36,6 +36,11 @@ func SV_C13_split() {
 		}
 		power := sv.Int64(fmt.Sprint("power", i))
 		sv.Assume(power >= 1 && power < 1<<40) // Tendermint: a validator in the commit has positive power
+		if i == 2 {
+			// third validator (thorough tier): power from a concrete set (three
+			// symbolic powers leave nonlinear goals the solvers answer unknown on)
+			power = []int64{1, 1000, 1 << 39}[sv.Choice("power2", 3)]
+		}
 		votes = append(votes, abci.VoteInfo{Validator: abci.Validator{Address: p.Addr, Power: power}, SignedLastBlock: sv.Bool(fmt.Sprint("signed", i))})
 	}
 	// delegation pool and delegators
